@@ -806,20 +806,27 @@ func r14_7(c *Ctx, r *Report) {
 					}
 					// a segment of the argument (what remains of it), not of a string built here
 					seen := map[ssa.Value]bool{}
-					var fromParam func(v ssa.Value) bool
-					fromParam = func(v ssa.Value) bool {
+					var fromParam func(f *evalFrame, v ssa.Value) bool
+					fromParam = func(f *evalFrame, v ssa.Value) bool {
 						if seen[v] {
 							return true
 						}
 						seen[v] = true
 						switch x := v.(type) {
 						case *ssa.Parameter:
-							return true
+							// Fix's own argument; a helper's parameter is what the helper was handed
+							if f.parent == nil {
+								return f.fn == fn
+							}
+							if of, ov := f.origin(x); of != f || ov != ssa.Value(x) {
+								return fromParam(of, ov)
+							}
+							return false
 						case *ssa.Slice:
-							return fromParam(x.X)
+							return fromParam(f, x.X)
 						case *ssa.Phi:
 							for _, e := range x.Edges {
-								if !fromParam(e) {
+								if !fromParam(f, e) {
 									return false
 								}
 							}
@@ -827,7 +834,7 @@ func r14_7(c *Ctx, r *Report) {
 						}
 						return false
 					}
-					return fromParam(sl.X)
+					return fromParam(fr, sl.X)
 				}
 				if !isSeg(bo.X) && !isSeg(bo.Y) {
 					continue
